@@ -8,6 +8,10 @@ Contract (executable form of the C13 clauses):
   * both modes: the completion names after '<path to obj>.' are a superset of dir(obj) (obj an instance or a class),
   * both modes: infer() on a path of plain instance attributes and exact builtin list/tuple/dict items reports the class
     of the object really stored there (the class / function itself for stored classes / functions).
+
+Known on /repo e200cf3 (kept, not hidden): safe mode runs metaclass properties / descriptors (`T.mprop`, getattr_static's
+metaclass branch reports is_get_descriptor=False) and the __iter__/__next__ of list / tuple subclasses (`l[0]`,
+DirectObjectAccess.py__getitem__all_values iterates anything that isinstance()s list / tuple).
 """
 import importlib.util
 import itertools
@@ -80,7 +84,8 @@ def shapes():
 
 def build(shape, idx):
     """-> (module namespace, [namespace dicts], object, class)"""
-    slots = ('__slots__ = ()' if shape['base'] == 'tuple' else "__slots__ = ('plain', 'num')") if shape['slots'] else 'pass'
+    slots = 'pass' if not shape['slots'] else '__slots__ = ()' if shape['base'] == 'tuple' else \
+        "__slots__ = ('plain', 'num')"
     src = PRELUDE + BODY % dict(base=shape['base'], slots=slots, getattr=GETATTRS[shape['getattr']]) + \
         WHERE[shape['where']] % dict(slots='__slots__ = ()' if shape['slots'] else 'pass',
                                      dynslots="'__slots__': ()" if shape['slots'] else '')
@@ -113,8 +118,9 @@ def build(shape, idx):
     return m, namespaces, o, T
 
 
-def codes(idx, seed):
-    """safe-mode query texts (cursor at the end); the path to the object rotates over four equivalent routes"""
+def codes(idx, seed, tier):
+    """safe-mode query texts (cursor at the end); the path to the object rotates over four equivalent routes (quick:
+    one route per text, thorough: two)"""
     inst = ['P.'] + [t % a for a in ATTRS for t in ('P.%s', 'P.%s.', 'P.%s.n')] + [
         'P[0]', 'P[0].', "P['k'].n", 'P[0:1].', 'P()', 'P().', 'P(', 'for q in P:\n    q.', 'a, *b = P\na.',
         '[q for q in P][0].', 'list(P)[0].', 'next(iter(P)).', 'next(P).', 'len(P).', 'bool(P).', '(not P).',
@@ -122,17 +128,21 @@ def codes(idx, seed):
         '1 in P', 'P == 1', 'func(*P).', 'func(P).', 'print(**P)', 'q = P[0]\nq.', 'P.__iter__().', 'P.__len__().',
         'P.__getitem__(0).', 'P.plain.', 'P.plain.n']
     cls = ['T.'] + [t % a for a in ATTRS + ['mprop', 'mnd', 'mdd'] for t in ('T.%s', 'T.%s.')] + [
-        'T().', 'T()[0].', 'T().prop.', 'T().dd', 'T(', 'T[0].', 'for q in T:\n    q.', 'box["ns"].cls.mnd.', 'T.mro().']
-    return [c.replace('P', ROOTS[(i + idx + seed) % len(ROOTS)]) for i, c in enumerate(inst)] + cls
+        'T().', 'T()[0].', 'T().prop.', 'T().dd', 'T(', 'T[0].', 'for q in T:\n    q.', 'box["ns"].cls.mnd.',
+        'T.mro().']
+    routes = [[ROOTS[(i + idx + seed + k) % len(ROOTS)] for k in ((0, 2) if tier == 'thorough' else (0,))]
+              for i in range(len(inst))]
+    return [c.replace('P', r) for c, rs in zip(inst, routes) for r in rs] + cls
 
 
-def plain_paths(namespaces, limit):
-    """(code, real object) for paths through plain instance attributes and exact builtin containers"""
+def plain_paths(namespaces, limit, offset):
+    """(code, real object) for paths (<= 4 steps) through plain instance attributes and exact builtin containers; an
+    evenly spread sample of `limit` of them"""
     out, todo = [], [(k, v, 0) for ns in namespaces for k, v in ns.items()]
     while todo:
         code, obj, depth = todo.pop(0)
         out.append((code, obj))
-        if depth >= 4 or len(out) + len(todo) > 4 * limit:
+        if depth >= 4:
             continue
         if type(obj) is dict:
             todo += [('%s[%r]' % (code, k), v, depth + 1) for k, v in obj.items()]
@@ -147,7 +157,8 @@ def plain_paths(namespaces, limit):
                 klass = [c.__dict__[k] for c in type(obj).__mro__ if k in c.__dict__]
                 if not klass or not (hasattr(type(klass[0]), '__set__') or hasattr(type(klass[0]), '__delete__')):
                     todo.append(('%s.%s' % (code, k), v, depth + 1))   # the instance dict wins in real Python
-    return out[:limit]
+    step = max(1, len(out) // limit)
+    return out[offset % step::step][:limit]
 
 
 def touch(results):
@@ -155,7 +166,7 @@ def touch(results):
         r.name, r.type, r.full_name, r.description, r.module_name, r.line
         if r.name.startswith('__') and r.name not in ('__iter__', '__getitem__', '__call__', '__len__', '__bool__'):
             continue
-        r.docstring(), r.get_type_hint(), r.get_signatures()
+        r.docstring(), r.get_signatures()   # (get_type_hint needs typeshed, absent in this sandbox)
 
 
 def check_shape(arg):
@@ -181,19 +192,21 @@ def check_shape(arg):
         for mode in ('safe', 'unsafe'):
             jedi.settings.allow_unsafe_interpreter_executions = mode == 'unsafe'
             methods = METHODS + (MORE_METHODS if tier == 'thorough' else [])
-            for code in (codes(idx, seed) if mode == 'safe' else []):
+            for code in (codes(idx, seed, tier) if mode == 'safe' else []):
                 for meth in methods:
                     del calls[:]
                     script = jedi.Interpreter(code, namespaces, project=project)
                     res = script.get_names(all_scopes=True, references=True) if meth == 'get_names' \
                         else getattr(script, meth)()
+                    res = res if isinstance(res, list) else [res]   # get_context() answers with a single Name
                     touch(res)
                     evaluations += 1
                     nontrivial += bool(res)
                     for kind in sorted(set(calls)):
                         add(ran(kind), code, mode + ' method=' + meth, 'calls: %r' % calls[:20])
-            for code, obj in [(r, o) for r in ROOTS] + [('T', T), ('box["ns"].cls', T), ('box["ns"]', namespaces[1]['box']['ns']),
-                              ("box['sn']", namespaces[1]['box']['sn'])]:
+            box = namespaces[1]['box']
+            for code, obj in [(r, o) for r in ROOTS] + [('T', T), ('box["ns"].cls', T), ('box["ns"]', box['ns']),
+                                                        ("box['sn']", box['sn'])]:
                 expected = set(dir(obj))
                 del calls[:]
                 names = {c.name for c in jedi.Interpreter(code + '.', namespaces, project=project).complete()}
@@ -204,7 +217,7 @@ def check_shape(arg):
                 if expected - names:
                     add("names after 'obj.' do not include everything in dir(obj)", code + '.', mode,
                         'missing: %r' % sorted(expected - names))
-            for code, obj in plain_paths(namespaces, 30 if tier == 'quick' else 80):
+            for code, obj in plain_paths(namespaces, 40 if tier == 'quick' else 400, idx + seed):
                 if type(obj).__module__ == 'types':
                     continue   # SimpleNamespace is only a route here (stdlib types are outside the typeshed-free scope)
                 # a stored class / function is identified by its own name; for a class with a custom metaclass the
@@ -233,9 +246,10 @@ def _init_worker(repo):
 
 def run(repo, seed, tier):
     all_shapes = list(enumerate(shapes()))
-    chosen = [(i, s, seed, tier) for i, s in all_shapes if tier == 'thorough' or (i + seed) % 3 == 0]
-    # spawned (not forked) workers: after a fork of the jedi-laden parent the same work costs 2x user and 20x system time
-    with mp.get_context('spawn').Pool(min(16, os.cpu_count() or 4), initializer=_init_worker, initargs=(repo,)) as pool:
+    chosen = [(i, s, seed, tier) for i, s in all_shapes if tier == 'thorough' or (i + seed) % 5 == 0]
+    # spawned (not forked) workers: after a fork of the jedi-laden parent the same work costs 2x user, 20x system time
+    with mp.get_context('spawn').Pool(min(16, os.cpu_count() or 4), initializer=_init_worker,
+                                      initargs=(repo,)) as pool:
         results = pool.map(check_shape, chosen, chunksize=1)
     violations = [v for r in results for v in r[2]]
     counts, kept = {}, []
@@ -243,22 +257,25 @@ def run(repo, seed, tier):
         counts[v['label']] = counts.get(v['label'], 0) + 1
         if counts[v['label']] <= 3 and len(kept) < 50:
             kept.append(v)
-    ncodes = len(codes(0, 0))
+    ncodes = len(codes(0, 0, tier))
     return {'name': 'C13.object-graphs', 'contract': 'C13.safe-mode',
             'evaluations': sum(r[0] for r in results), 'distinct_nontrivial': sum(r[1] for r in results),
-            'rule': '%d of %d object-graph shapes (builtin base object/list/dict/tuple x features defined on the class / '
-                    'a base / a base of a type()-created class x __slots__ x none/__getattr__/__getattribute__ x '
-                    'exec-created or file-backed source x descriptors shadowed by instance __dict__ entries); every '
-                    'class has two properties (one with an unresolvable annotation), four descriptor kinds, a metaclass '
-                    'with a property and two descriptors, and counting __getitem__/__iter__/__next__/__call__/__len__/'
-                    '__bool__; the object sits in two namespaces, in nested dict/list/tuple and in an instance of a '
-                    'type()-created class and in a SimpleNamespace. Safe mode: %d query texts x %s, counters must stay empty. Both modes: '
-                    "completion after 'obj.' (4 routes to the object, 2 to the class, the two holders) must cover dir(obj); infer on <= %d plain "
-                    'attribute / builtin-container paths (depth <= 4) must name type(real object). distinct_nontrivial '
-                    '= evaluations with a non-empty answer.'
-                    % (len(chosen), len(all_shapes), ncodes, '/'.join(METHODS + (MORE_METHODS if tier == 'thorough' else [])),
-                       30 if tier == 'quick' else 80),
-            'samples': [{'shape': chosen[0][1], 'code': codes(0, seed)[1], 'mode': 'safe', 'oracle': 'no counted call'},
+            'rule': '%d of %d object-graph shapes (builtin base object/list/dict/tuple x features defined on the class / a '
+                    'base / a base of a type()-created class x __slots__ x none/__getattr__/__getattribute__ x exec-created '
+                    'or file-backed source x descriptors shadowed by instance __dict__ entries); every class has two '
+                    'properties (one with an unresolvable annotation), four descriptor kinds, a metaclass with a property '
+                    'and two descriptors, and counting __getitem__/__iter__/__next__/__call__/__len__/__bool__; the object '
+                    'sits in two namespaces, in nested dict/list/tuple, in an instance of a type()-created class and in a '
+                    'SimpleNamespace. Safe mode: %d query texts x %s (plus the usual attributes of every result), '
+                    'counters must stay empty. Both modes: completion after "obj." (4 routes to the object, 2 to the '
+                    'class, the two holders) must cover dir(obj); infer on <= %d plain attribute / builtin-container '
+                    'paths (<= 4 steps) must name type(real object) (stdlib-typed end points skipped, either name '
+                    'accepted for a class with a custom metaclass). distinct_nontrivial = evaluations with a non-empty '
+                    'answer.' % (len(chosen), len(all_shapes), ncodes,
+                                 '/'.join(METHODS + (MORE_METHODS if tier == 'thorough' else [])),
+                                 40 if tier == 'quick' else 400),
+            'samples': [{'shape': chosen[0][1], 'code': codes(chosen[0][0], seed, tier)[1], 'mode': 'safe',
+                         'oracle': 'no counted call'},
                         {'shape': chosen[-1][1], 'code': 'box["ns"].inner.', 'oracle': 'names >= dir(obj)'},
                         {'code': "box['k'][0].items[1][2]", 'oracle': "infer -> ('Val', 'instance')"}],
             'violations': kept, 'violation_counts': counts}
